@@ -10,6 +10,8 @@ import (
 	"context"
 	"encoding/json"
 	"fmt"
+	"os"
+	"reflect"
 	"sort"
 	"strings"
 	"sync"
@@ -114,6 +116,12 @@ func verifCanonResult(v interface{}) verifResult {
 			cls = "rejected"
 		}
 		return verifResult{Canon: "TxnResponse: " + vs.CanonJSON(x), Class: cls}
+	case structs.AssignServiceManualVIPsResponse:
+		cls := "accepted"
+		if !x.Found {
+			cls = "refused"
+		}
+		return verifResult{Canon: fmt.Sprintf("%T: %s", v, vs.CanonJSON(v)), Class: cls}
 	case proto.Message:
 		return verifResult{Canon: fmt.Sprintf("%T: %s", v, vs.CanonJSON(v)), Class: "accepted"}
 	}
@@ -183,6 +191,36 @@ func (v *verifCoverage) add(cmd *vs.FCmd, class string) {
 	v.rec.AddExtraInt(k, 1)
 }
 
+// reason counts why commands were rejected (development aid: VERIF_DEBUG_REJECTS=1 prints the table).
+func (v *verifCoverage) reason(cmd *vs.FCmd, res verifResult) {
+	if res.Class == "accepted" || os.Getenv("VERIF_DEBUG_REJECTS") == "" {
+		return
+	}
+	v.mu.Lock()
+	defer v.mu.Unlock()
+	txt := res.Canon
+	if len(txt) > 110 {
+		txt = txt[:110]
+	}
+	v.n["why:"+cmd.Kind+": "+txt]++
+}
+
+func (v *verifCoverage) dumpReasons(t *testing.T) {
+	if os.Getenv("VERIF_DEBUG_REJECTS") == "" {
+		return
+	}
+	var ks []string
+	for k := range v.n {
+		if strings.HasPrefix(k, "why:") {
+			ks = append(ks, k)
+		}
+	}
+	sort.Strings(ks)
+	for _, k := range ks {
+		t.Logf("%6d %s", v.n[k], k)
+	}
+}
+
 // assertAllTypes fails the run when a registered message type was never generated (only meaningful for real runs).
 func (v *verifCoverage) assertAllTypes(t *testing.T, cases int64) {
 	if cases < 150 {
@@ -212,12 +250,14 @@ type verifLogGen struct {
 	w       *vs.FWorld
 	cfg     *vs.FCfg
 	prelude []*vs.FCmd
+	focus   string
 }
 
 func verifNewLogGen(t *rapid.T, r *verifReplica) *verifLogGen {
 	w := vs.NewFWorld(r.fsm.State())
 	w.Resource = r.resources
-	g := &verifLogGen{w: w, cfg: vs.DefaultFCfg()}
+	focus := vs.Focuses[rapid.IntRange(0, len(vs.Focuses)-1).Draw(t, "focus")]
+	g := &verifLogGen{w: w, cfg: vs.DefaultFCfg().Focused(focus), focus: focus}
 	g.prelude = w.Prelude(t)
 	return g
 }
@@ -276,3 +316,106 @@ func (v *verifFamilies) note(cmd *vs.FCmd, res verifResult) {
 	v.multi = v.multi || cmd.Multi
 	v.rmw = v.rmw || cmd.RMW
 }
+
+// verifJSONDiff returns the first differing path of two canonical results and whether they are equal once every
+// list is sorted (i.e. the difference is one of ORDER only).
+func verifJSONDiff(a, b string) (path string, orderOnly bool) {
+	split := func(s string) (string, interface{}) {
+		for i := 0; i+1 < len(s); i++ {
+			if s[i] == ':' && s[i+1] == ' ' {
+				var g interface{}
+				if json.Unmarshal([]byte(s[i+2:]), &g) == nil {
+					return s[:i], g
+				}
+				break
+			}
+		}
+		return s, nil
+	}
+	ta, ga := split(a)
+	tb, gb := split(b)
+	if ta != tb {
+		return "type", false
+	}
+	if ga == nil || gb == nil {
+		return "value", false
+	}
+	path = verifDiffPath("", ga, gb)
+	return path, reflect.DeepEqual(verifSortLists(ga), verifSortLists(gb))
+}
+
+func verifDiffPath(prefix string, a, b interface{}) string {
+	switch x := a.(type) {
+	case map[string]interface{}:
+		y, ok := b.(map[string]interface{})
+		if !ok {
+			return prefix
+		}
+		keys := map[string]bool{}
+		for k := range x {
+			keys[k] = true
+		}
+		for k := range y {
+			keys[k] = true
+		}
+		var ks []string
+		for k := range keys {
+			ks = append(ks, k)
+		}
+		sort.Strings(ks)
+		for _, k := range ks {
+			if !reflect.DeepEqual(x[k], y[k]) {
+				p := k
+				if prefix != "" {
+					p = prefix + "." + k
+				}
+				return verifDiffPath(p, x[k], y[k])
+			}
+		}
+	case []interface{}:
+		y, ok := b.([]interface{})
+		if !ok || len(x) != len(y) {
+			return prefix + "[]"
+		}
+		for i := range x {
+			if !reflect.DeepEqual(x[i], y[i]) {
+				return verifDiffPath(prefix+"[]", x[i], y[i])
+			}
+		}
+	}
+	if prefix == "" {
+		return "value"
+	}
+	return prefix
+}
+
+func verifSortLists(g interface{}) interface{} {
+	switch x := g.(type) {
+	case map[string]interface{}:
+		out := map[string]interface{}{}
+		for k, v := range x {
+			out[k] = verifSortLists(v)
+		}
+		return out
+	case []interface{}:
+		out := make([]interface{}, len(x))
+		keys := make([]string, len(x))
+		for i, v := range x {
+			out[i] = verifSortLists(v)
+			b, _ := json.Marshal(out[i])
+			keys[i] = string(b)
+		}
+		idx := make([]int, len(x))
+		for i := range idx {
+			idx[i] = i
+		}
+		sort.Slice(idx, func(i, j int) bool { return keys[idx[i]] < keys[idx[j]] })
+		sorted := make([]interface{}, len(x))
+		for i, j := range idx {
+			sorted[i] = out[j]
+		}
+		return sorted
+	}
+	return g
+}
+
